@@ -352,3 +352,7 @@ def run(ctx):
     # R9.7: no behaviour changes at a number fixed in the source (sizes, depths, counts, magnitudes are unbounded in the property's domain)
     from . import scope as _scope
     _scope.rule_no_size_thresholds(ctx, 'R9.7', ('_validators', '_legacy_validators'), 'the numeric keywords')
+    # R9.8: each draft binds minimum / maximum / exclusive* to the functions with that draft's relation (Draft 6/7 keeping the Draft 4 functions
+    # read exclusiveMinimum as a flag) (C09-r7m2)
+    from .c01 import rule_scalar_relations
+    rule_scalar_relations(ctx, "R9.8")
